@@ -53,3 +53,32 @@ func Enumerate(limit int, body func(c *Chooser)) (leaves int, complete bool) {
 		prefix = append(append([]int{}, c.taken[:i]...), c.taken[i]+1)
 	}
 }
+
+// FirstWidth returns the width of the first choice point of the last run (0 if none).
+func (c *Chooser) FirstWidth() int {
+	if len(c.widths) == 0 {
+		return 0
+	}
+	return c.widths[0]
+}
+
+// EnumerateFrom enumerates only the sub-tree below the fixed choice prefix.
+func EnumerateFrom(fixed []int, limit int, body func(c *Chooser)) (leaves int, complete bool) {
+	prefix := append([]int{}, fixed...)
+	for {
+		c := &Chooser{prefix: prefix}
+		body(c)
+		leaves++
+		i := len(c.taken) - 1
+		for i >= len(fixed) && c.taken[i]+1 >= c.widths[i] {
+			i--
+		}
+		if i < len(fixed) {
+			return leaves, true
+		}
+		if limit > 0 && leaves >= limit {
+			return leaves, false
+		}
+		prefix = append(append([]int{}, c.taken[:i]...), c.taken[i]+1)
+	}
+}
